@@ -160,6 +160,33 @@ def cases(rng, which, count):
                     fl += ["--genetic-code", rng.choice(["standard", "mitov", "mitoi"])]
                 nt = [(nm, "".join(rng.choice("ACGTacgtN-") for _ in range(L))) for nm, _ in rows]
                 yield Case("cli_lib", [esc(fasta(nt)), "translate"] + fl, True, "cli-translate")
+            elif w == "codonalign":
+                # protein rows that the reader cannot take for nucleotides (E, F, I, L, P, Q are not IUPAC codes),
+                # and for each one its coding sequence: complete, with 1-2 more nucleotides, too short, too long, absent
+                aa = "ARNDCQEGHILKMFPSTWYV"
+                pr = []
+                for nm, _ in rows:
+                    sq = [rng.choice(aa + "---") for _ in range(L)]
+                    sq[rng.randrange(L)] = rng.choice("EFILPQ")
+                    pr.append((nm, "".join(sq)))
+                k = rng.random()
+                nts = []
+                for nm, sq in pr:
+                    need = 3 * sum(1 for c in sq if c != "-")
+                    extra = rng.choice([0, 0, 1, 2])
+                    if k < 0.1:
+                        extra = rng.choice([-3, -1, 3, 4])
+                    nts.append((nm, "".join(rng.choice("ACGTacgtN") for _ in range(max(0, need + extra)))))
+                if 0.1 <= k < 0.2 and len(nts) > 1:
+                    nts.pop(rng.randrange(len(nts)))
+                elif 0.2 <= k < 0.25:
+                    nts[0] = (nts[0][0], "".join(rng.choice("EFILPQ") for _ in nts[0][1]) or "E")    # not nucleotides
+                elif 0.25 <= k < 0.3:
+                    pr = [(nm, "".join(rng.choice("ACGT-") for _ in sq)) for nm, sq in pr]               # not a protein alignment
+                nts.append(("other", "ACGTAC"))
+                rng.shuffle(nts)
+                nts = [(nm, sq) for nm, sq in nts if sq]
+                yield Case("cli_libf", [esc(fasta(pr)), "nt.fa=" + esc(fasta(nts)), "codonalign", "-f", "nt.fa"], True, "cli-codonalign")
             elif w == "trim":
                 yield Case("cli_lib", [st, "trim", "seq", "-n", str(rng.choice([-1, 0, 1, 2, L - 1, L, L + 1]))] + (["-s"] if rng.random() < 0.5 else []), True, "cli-trim-seq")
                 if rng.random() < 0.3:
